@@ -48,7 +48,7 @@ def plan(tier, seed):
 
 def mandatory(tier):
     out = [f"loss/{n}" for n in POINTWISE + ["ncc_loss", "lcc_loss", "wlcc_loss", "mi_loss", "nmi_loss", "dice", "tversky"]]
-    out += [f"mask_shape/{m}" for m in MASK_SHAPES] + ["modules", "D/2", "D/3", "dice/absent_label", "wlcc/source_target_masks", "modules/norm_spellings", "soft_mask", "overlap_reductions", "max_difference/nested"]
+    out += [f"mask_shape/{m}" for m in MASK_SHAPES] + ["modules", "D/2", "D/3", "dice/absent_label", "wlcc/source_target_masks", "modules/norm_spellings", "soft_mask", "overlap_reductions", "max_difference/nested", "overlap/binarize", "mi_sampled/N1", "mi_sampled/11"]
     return out
 
 
@@ -236,6 +236,17 @@ def run_item(ctx, item):
                     y2 = torch.where(me > 0, y1, 1 - z1)
                     close("mi_values_outside_mask_are_ignored", f(x2, y2, mask=m, vmin=0.0, vmax=1.0), f(x1, y1, mask=m, vmin=0.0, vmax=1.0), f"{name}/outside_mask", mask_shape=ms, rel=1e-4)
                     close("mi_mask_shape_equals_explicit_broadcast", vm, f(x1, y1, mask=me.contiguous()), f"{name}/mask_broadcast", mask_shape=ms, rel=1e-4)
+                    # random sub-sampling draws positions inside each item's own mask: with the generator re-seeded, values
+                    # outside the masks cannot influence the loss
+                    nvox = int(np.prod(x1.shape[2:]))
+                    for skw in ({"num_samples": max(nvox // 3, 4)}, {"sample_ratio": 0.5}):
+                        sd = int(rng.integers(0, 2**31 - 1))
+                        torch.manual_seed(sd)
+                        v_in = f(x1, y1, mask=m, vmin=0.0, vmax=1.0, **skw)
+                        torch.manual_seed(sd)
+                        v_out = f(x2, y2, mask=m, vmin=0.0, vmax=1.0, **skw)
+                        close("mi_random_samples_come_from_inside_each_items_mask", v_out, v_in, f"{name}/sampled/outside_mask", mask_shape=ms, sampling=skw, rel=1e-5)
+                        ctx.bucket(f"mi_sampled/{ms}")
     # ------------------------------------------------------------------ Dice / Tversky
     seg = t((rng.uniform(size=shape) < 0.4).astype(np.float32))
     seg2 = t((rng.uniform(size=shape) < 0.4).astype(np.float32))
@@ -295,6 +306,13 @@ def run_item(ctx, item):
         close("tversky_loss_is_one_minus_index", LF.tversky_loss(b1, b2, reduction="none"), 1 - tb, "tversky/loss")
         close("tversky_loss_of_identical_is_zero", LF.tversky_loss(b1, b1), torch.zeros(()), "tversky/identity")
         close("focal_tversky_loss", LF.tversky_loss(b1, b2, gamma=2, reduction="none"), (1 - tb) ** 2, "tversky/gamma")
+        # binarize=True thresholds the probabilities first: identical binary segmentations from unsaturated logits
+        lgu = (b1 * 2 - 1) * float(rng.uniform(0.2, 1.5))
+        close("tversky_loss_with_logits_binarized_identical_is_zero", LF.tversky_loss_with_logits(lgu, b1, binarize=True), torch.zeros(()), "tversky/logits/binarize", rel=1e-5)
+        close("tversky_index_with_logits_binarized_identical_is_one", LF.tversky_index_with_logits(lgu, b1, binarize=True, reduction="none"), torch.ones_like(tb), "tversky/logits/binarize", rel=1e-5)
+        lgo = (b2 * 2 - 1) * float(rng.uniform(0.2, 1.5))
+        close("tversky_loss_with_logits_binarized_is_one_minus_binary_index", LF.tversky_loss_with_logits(lgo, b1, binarize=True, reduction="none"), 1 - LF.tversky_index(b2, b1, reduction="none"), "tversky/logits/binarize", rel=1e-5)
+        ctx.bucket("overlap/binarize")
         lg = (b1 * 2 - 1) * 20
         close("tversky_loss_with_logits_of_confident_prediction", LF.tversky_loss_with_logits(lg, b1), torch.zeros(()), "tversky/logits", rel=1e-4)
         close("tversky_index_with_logits", LF.tversky_index_with_logits(lg, b2, reduction="none"), tb, "tversky/logits", rel=1e-4)
